@@ -28,6 +28,11 @@ package main
 //   match-failed-array-case  an array pattern that binds names and then fails on a later element, followed by an
 //                       alternative / case whose body reads and assigns an OUTER variable of the same name (global,
 //                       parameter, loop variable); exact output from Go and the -o document unchanged
+//   depth-limit-boundary    one evaluation needing exactly D live frames, every D in 4090..4100, 17 recursion shapes (direct,
+//                       mutual, through match bodies, in argument / condition / match-subject position), in BEGIN / rule
+//                       body / pattern / END, directly and under 1-3 outer frames; exact value or the exact push site
+//                       at which the limit strikes (replay of the pushes in Go)
+//   depth-limit-sequences   several at-limit evaluations in one run (no frame may be left behind), then one over the limit
 
 import (
 	"fmt"
@@ -2373,5 +2378,443 @@ func init() {
 				c08MatchFailed(r, emit)
 			}
 		},
+	})
+}
+
+// ---------------------------------------------------------------- depth-limit-boundary
+//
+// Frames are counted exactly: the rule level (BEGIN, patterns, rule bodies, END) runs in the root frame
+// (depth 0), every call of a user function and every selected match body pushes exactly one frame that
+// is dropped when the call / body is left, and a push is refused exactly when it would make the depth
+// exceed 4096. The generator knows, per recursion shape, which push sites are live at which moment, and
+// computes the expectation (value, or the site at which the limit strikes) by replaying the pushes.
+
+const c08dlLimit = 4096
+
+// c08dlShape is a recursion f(n) -> ... -> f(0). Level k (k = 0 for the entry call) runs f (or, in a
+// mutual recursion, the k-th function of the cycle) with argument n-k. Site names refer to @site@
+// markers in decl; every list is indexed by level modulo its length.
+type c08dlShape struct {
+	name string
+	decl string
+	pc   [][]string // frames a level with argument > 0 pushes and keeps while the recursive call runs (match bodies)
+	rc   []string   // the recursive call site of a level
+	ac   [][]string // frames pushed and dropped after the recursive call returned, inside pc
+	bpc  [][]string // frames the base level (argument 0) pushes and keeps ...
+	bc   [][]string // ... while it pushes and drops these
+	val  func(n int) string
+}
+
+func c08dlNum(n int) string { return strconv.Itoa(n) }
+
+func c08dlShapes() []c08dlShape {
+	m := [][]string{{"m"}}
+	return []c08dlShape{
+		{name: "direct", decl: "function f(n) { if (n > 0) { return 1 + @r@f(n - 1) } return 0 }\n",
+			rc: []string{"r"}, val: c08dlNum},
+		{name: "direct-tail", decl: "function f(n) {\n  if (n > 0) {\n    return @r@f(n - 1)\n  }\n  return \"bottom\"\n}\n",
+			rc: []string{"r"}, val: func(int) string { return "bottom" }},
+		{name: "mutual-2", decl: "function f(n) { if (n > 0) { return 1 + @g@g(n - 1) } return 0 }\nfunction g(n) { if (n > 0) { return 1 + @f@f(n - 1) } return 0 }\n",
+			rc: []string{"g", "f"}, val: c08dlNum},
+		{name: "mutual-3", decl: "function f(n) { if (n > 0) { return 1 + @g@g(n - 1) } return 0 }\nfunction g(n) { if (n > 0) { return 1 + @h@h(n - 1) } return 0 }\nfunction h(n) { if (n > 0) { return 1 + @f@f(n - 1) } return 0 }\n",
+			rc: []string{"g", "h", "f"}, val: c08dlNum},
+		{name: "match-expr", decl: "function f(n) { return @m@match (n) { 0 => 0, _ => 1 + @r@f(n - 1) } }\n",
+			pc: m, rc: []string{"r"}, bpc: m, val: c08dlNum},
+		{name: "match-expr-guarded", decl: "function f(n) { if (n == 0) { return 0 }\n  return @m@match (n) { k => 1 + @r@f(k - 1) } }\n",
+			pc: m, rc: []string{"r"}, val: c08dlNum},
+		{name: "match-block", decl: "function f(n) {\n  @m@match (n) { 0 => { return 0 }, k => { return 1 + @r@f(k - 1) } }\n}\n",
+			pc: m, rc: []string{"r"}, bpc: m, val: c08dlNum},
+		{name: "match-mutual", decl: "function f(n) { return @m@match (n) { 0 => 0, _ => 1 + @g@g(n - 1) } }\nfunction g(n) { if (n > 0) { return 1 + @f@f(n - 1) } return 0 }\n",
+			pc: [][]string{{"m"}, nil}, rc: []string{"g", "f"}, bpc: [][]string{{"m"}, nil}, val: c08dlNum},
+		{name: "match-subject", decl: "function f(n) { if (n == 0) { return 0 }\n  return @m@match (@r@f(n - 1)) { v => v + 1 } }\n",
+			rc: []string{"r"}, ac: m, val: c08dlNum},
+		{name: "argument", decl: "function pick(a, b) { return b }\nfunction f(n) { if (n > 0) { return @i@pick(0, @r@f(n - 1)) + 1 } return 0 }\n",
+			rc: []string{"r"}, ac: [][]string{{"i"}}, val: c08dlNum},
+		{name: "argument-base", decl: "function id(v) { return v }\nfunction f(n) { if (n > 0) { return @i@id(@r@f(n - 1)) + 1 } return @j@id(0) }\n",
+			rc: []string{"r"}, ac: [][]string{{"i"}}, bc: [][]string{{"j"}}, val: c08dlNum},
+		{name: "argument-mutual", decl: "function id(v) { return v }\nfunction f(n) { if (n > 0) { return @i@id(@g@g(n - 1)) + 1 } return 0 }\nfunction g(n) { if (n > 0) { return @j@id(@f@f(n - 1)) + 1 } return 0 }\n",
+			rc: []string{"g", "f"}, ac: [][]string{{"i"}, {"j"}}, val: c08dlNum},
+		{name: "argument-in-match", decl: "function id(v) { return v }\nfunction f(n) { return @m@match (n) { 0 => @j@id(0), k => @i@id(@r@f(k - 1)) + 1 } }\n",
+			pc: m, rc: []string{"r"}, ac: [][]string{{"i"}}, bpc: m, bc: [][]string{{"j"}}, val: c08dlNum},
+		{name: "condition-and", decl: "function f(n) { if (n > 0 && @r@f(n - 1) >= 0) { return n } return 0 }\n",
+			rc: []string{"r"}, val: c08dlNum},
+		{name: "condition-or", decl: "function f(n) { return n == 0 || @r@f(n - 1) }\n",
+			rc: []string{"r"}, val: func(int) string { return "true" }},
+		{name: "condition-while", decl: "function f(n) { while (n > 0 && @r@f(n - 1) == n - 1) { return n } return 0 }\n",
+			rc: []string{"r"}, val: c08dlNum},
+		{name: "array-item", decl: "function f(n) { if (n > 0) { return [7, @r@f(n - 1)][1] + 1 } return 0 }\n",
+			rc: []string{"r"}, val: c08dlNum},
+	}
+}
+
+// c08dlSim replays pushes and pops against a limit.
+type c08dlSim struct {
+	limit, depth, max int
+	refused           string // the site whose push was refused
+}
+
+func (s *c08dlSim) push(site string) bool {
+	if s.depth+1 > s.limit {
+		s.refused = site
+		return false
+	}
+	s.depth++
+	if s.depth > s.max {
+		s.max = s.depth
+	}
+	return true
+}
+
+func c08dlAt(l [][]string, k int) []string {
+	if len(l) == 0 {
+		return nil
+	}
+	return l[k%len(l)]
+}
+
+// level replays level k with argument n; the level's own frame has been pushed by the caller.
+func (sh *c08dlShape) level(s *c08dlSim, k, n int) bool {
+	if n == 0 {
+		keep := c08dlAt(sh.bpc, k)
+		for _, x := range keep {
+			if !s.push(x) {
+				return false
+			}
+		}
+		for _, x := range c08dlAt(sh.bc, k) {
+			if !s.push(x) {
+				return false
+			}
+			s.depth--
+		}
+		s.depth -= len(keep)
+		return true
+	}
+	keep := c08dlAt(sh.pc, k)
+	for _, x := range keep {
+		if !s.push(x) {
+			return false
+		}
+	}
+	if !s.push(sh.rc[k%len(sh.rc)]) || !sh.level(s, k+1, n-1) {
+		return false
+	}
+	s.depth--
+	for _, x := range c08dlAt(sh.ac, k) {
+		if !s.push(x) {
+			return false
+		}
+		s.depth--
+	}
+	s.depth -= len(keep)
+	return true
+}
+
+// entry replays one evaluation of the entry expression (outer frames, then f(n)) from depth 0.
+func (sh *c08dlShape) entry(s *c08dlSim, outer []string, n int) bool {
+	for _, x := range outer {
+		if !s.push(x) {
+			return false
+		}
+	}
+	if !s.push("e") || !sh.level(s, 0, n) {
+		return false
+	}
+	s.depth -= len(outer) + 1
+	return true
+}
+
+// need: the number of frames that are live at the deepest moment of one evaluation.
+func (sh *c08dlShape) need(outer []string, n int) int {
+	s := &c08dlSim{limit: 1 << 30}
+	sh.entry(s, outer, n)
+	return s.max
+}
+
+// c08dlOuter builds the entry expression under the outer frames `kinds` ('c' a wrapper function, 'm' a
+// match body); it returns the expression text for argument text arg, the wrapper declarations and the
+// outer push sites from the outside in.
+func c08dlOuter(kinds string, arg string) (expr string, decls string, sites []string) {
+	var build func(i int, arg string) string
+	build = func(i int, arg string) string {
+		if i == len(kinds) {
+			return "@e@f(" + arg + ")"
+		}
+		site := fmt.Sprintf("w%d", i)
+		if kinds[i] == 'm' {
+			site = fmt.Sprintf("o%d", i)
+			sites = append(sites, site)
+			return "@" + site + "@match (0) { _ => " + build(i+1, arg) + " }"
+		}
+		sites = append(sites, site)
+		inner := build(i+1, "x")
+		decls += fmt.Sprintf("function w%d(x) { return %s }\n", i, inner)
+		return fmt.Sprintf("@%s@w%d(%s)", site, i, arg)
+	}
+	expr = build(0, arg) // sites are collected in push order: each before descending
+
+	return expr, decls, sites
+}
+
+// c08dlStrip removes the @site@ markers and returns the 1-based line and 0-based column of each.
+func c08dlStrip(src string) (string, map[string][2]int) {
+	var b strings.Builder
+	pos := map[string][2]int{}
+	line, col := 1, 0
+	for i := 0; i < len(src); i++ {
+		if src[i] == '@' {
+			j := strings.IndexByte(src[i+1:], '@')
+			pos[src[i+1:i+1+j]] = [2]int{line, col}
+			i += j + 1
+			continue
+		}
+		b.WriteByte(src[i])
+		if src[i] == '\n' {
+			line, col = line+1, 0
+		} else {
+			col++
+		}
+	}
+	return b.String(), pos
+}
+
+var c08dlFields = []string{"class", "out", "depth", "line", "col"}
+
+var c08dlPlaces = []string{"begin", "rule", "pattern", "end"}
+
+// c08dlCase: the entry expression is evaluated once per element of ns, in the given place, under the
+// given outer frames. In "begin" and "end" the arguments are literals (one print each), in "rule" and
+// "pattern" they are the records.
+func c08dlCase(sh c08dlShape, place string, kinds string, ns []int, what string, emit func(Case)) {
+	arg := "$"
+	if place == "begin" || place == "end" {
+		arg = "ARG"
+	}
+	expr, wdecls, outer := c08dlOuter(kinds, arg)
+	var body strings.Builder
+	body.WriteString(sh.decl)
+	body.WriteString(wdecls)
+	var recs []string
+	for _, n := range ns {
+		recs = append(recs, strconv.Itoa(n))
+	}
+	doc := "[" + strings.Join(recs, ", ") + "]"
+	sim := &c08dlSim{limit: c08dlLimit}
+	var want strings.Builder
+	ok := true
+	evalAll := func(before func(n int) string, after func(n int) string) {
+		for _, n := range ns {
+			want.WriteString(before(n))
+			if !sh.entry(sim, outer, n) {
+				ok = false
+				return
+			}
+			want.WriteString(after(n))
+		}
+	}
+	switch place {
+	case "begin", "end":
+		if place == "begin" {
+			body.WriteString("BEGIN {\n  print \"s\"\n")
+			want.WriteString("s\n")
+			doc = ""
+		} else {
+			doc = "[1, 2, 3]"
+			body.WriteString("{ c++ }\nEND {\n  print \"e\", c\n")
+			want.WriteString("e 3\n")
+		}
+		// one marker set only: the first evaluation carries the markers, the others are plain copies;
+		// the limit can only strike in the LAST one (the generator puts the over-limit depth last), so
+		// mark the last
+		for i, n := range ns {
+			e := strings.ReplaceAll(expr, "ARG", strconv.Itoa(n))
+			if i != len(ns)-1 {
+				e, _ = c08dlStrip(e)
+			}
+			fmt.Fprintf(&body, "  print \"v\", %s\n", e)
+		}
+		body.WriteString("  print \"t\"\n}\n")
+		evalAll(func(int) string { return "" }, func(n int) string { return "v " + sh.val(n) + "\n" })
+		if ok {
+			want.WriteString("t\n")
+		}
+	case "rule":
+		fmt.Fprintf(&body, "{\n  print \"r\", $\n  print \"v\", %s\n  print \"t\"\n}\nEND { print \"end\" }\n", expr)
+		evalAll(func(n int) string { return fmt.Sprintf("r %d\n", n) }, func(n int) string { return "v " + sh.val(n) + "\nt\n" })
+		if ok {
+			want.WriteString("end\n")
+		}
+	case "pattern":
+		fmt.Fprintf(&body, "(v = %s) || true { print \"p\", $, v }\nEND { print \"end\" }\n", expr)
+		evalAll(func(int) string { return "" }, func(n int) string { return fmt.Sprintf("p %d %s\n", n, sh.val(n)) })
+		if ok {
+			want.WriteString("end\n")
+		}
+	}
+	prog, pos := c08dlStrip(body.String())
+	var files []File
+	if doc != "" {
+		files = []File{{Name: "in.json", Data: []byte(doc)}}
+	}
+	wantOut, wantClass := want.String(), "ok"
+	var at [2]int
+	if !ok {
+		wantClass = "runtime"
+		at = pos[sim.refused]
+	}
+	needs := make([]string, len(ns))
+	for i, n := range ns {
+		needs[i] = strconv.Itoa(sh.need(outer, n))
+	}
+	base := c08OutOracle(wantOut, wantClass)
+	emit(Case{Req: RunReq(prog, nil, files, false), Fields: c08dlFields,
+		Meta: metaProg(prog, "input", doc, "shape", sh.name, "place", place, "outer-frames", kinds, "arguments", strings.Join(recs, " "),
+			"frames-needed", strings.Join(needs, " "), "what", what, "expected", wantClass, "row", sh.name, "col", place+"/"+strconv.Itoa(len(kinds))),
+		Oracle: func(i Resp) string {
+			if i["class"] == "runtime" && wantClass == "ok" {
+				return fmt.Sprintf("runtime error (%s) although no evaluation needs more than %d frames (frames needed: %s): a nesting within the limit was refused, or a finished call / match body left a frame behind",
+					i["msg"], c08dlLimit, strings.Join(needs, " "))
+			}
+			if i["class"] == "ok" && wantClass == "runtime" {
+				return fmt.Sprintf("the run succeeded although the last evaluation nests %s frames (limit %d)", needs[len(needs)-1], c08dlLimit)
+			}
+			if s := base(i); s != "" {
+				return s
+			}
+			if wantClass == "runtime" && (i["line"] != strconv.Itoa(at[0]) || i["col"] != strconv.Itoa(at[1])) {
+				return fmt.Sprintf("the limit struck at line %s col %s, expected at site %s (line %d col %d): the frame that exceeds the limit is push number %d",
+					i["line"], i["col"], sim.refused, at[0], at[1], c08dlLimit+1)
+			}
+			return ""
+		}})
+}
+
+// c08dlSolve finds an argument n and outer frames (as close to the wanted number as possible) such that
+// one evaluation needs exactly d frames.
+func c08dlSolve(r *rand.Rand, sh c08dlShape, d, w int) (kinds string, n int, ok bool) {
+	for _, ww := range []int{w, w + 1, w - 1, w + 2, w - 2} {
+		if ww < 0 || ww > 3 {
+			continue
+		}
+		k := make([]byte, ww)
+		for i := range k {
+			k[i] = "cm"[r.Intn(2)]
+		}
+		_, _, outer := c08dlOuter(string(k), "x")
+		// need is monotone in n: the smallest n that needs at least d frames
+		lo, hi := 0, d
+		for lo < hi {
+			mid := (lo + hi) / 2
+			if sh.need(outer, mid) >= d {
+				hi = mid
+			} else {
+				lo = mid + 1
+			}
+		}
+		if sh.need(outer, lo) == d {
+			return string(k), lo, true
+		}
+	}
+	return "", 0, false
+}
+
+func c08dlGenBoundary(r *rand.Rand, tier string, emit func(Case)) {
+	shapes := c08dlShapes()
+	one := func(sh c08dlShape, d, w, rot int) {
+		kinds, n, ok := c08dlSolve(r, sh, d, w)
+		if !ok {
+			return
+		}
+		place := c08dlPlaces[(rot+r.Intn(2))%len(c08dlPlaces)]
+		c08dlCase(sh, place, kinds, []int{n}, fmt.Sprintf("one evaluation needing %d frames", d), emit)
+	}
+	if tier != "thorough" {
+		// a 4096-deep evaluation costs ~0.1 s on either side (a global function is looked up through all
+		// live frames), so the quick tier takes the boundary pair for every shape, directly and under
+		// outer frames, and every other depth for three shapes in rotation (every shape comes up)
+		for si, sh := range shapes {
+			for d := c08dlLimit; d <= c08dlLimit+1; d++ {
+				one(sh, d, 0, si+d)
+				one(sh, d, 1+r.Intn(3), si+d+1)
+			}
+		}
+		perm := r.Perm(len(shapes))
+		k := 0
+		for d := c08dlLimit - 6; d <= c08dlLimit+4; d++ {
+			if d == c08dlLimit || d == c08dlLimit+1 {
+				continue
+			}
+			for j := 0; j < 3; j++ {
+				w := 0
+				if k%2 == 1 {
+					w = 1 + r.Intn(3)
+				}
+				one(shapes[perm[k%len(perm)]], d, w, k)
+				k++
+			}
+		}
+		return
+	}
+	for round := 0; round < 2; round++ {
+		for si, sh := range shapes {
+			for d := c08dlLimit - 6; d <= c08dlLimit+4; d++ {
+				one(sh, d, 0, si+d+round)
+				one(sh, d, 1+r.Intn(3), si+d+round+1)
+			}
+		}
+	}
+}
+
+// Several evaluations in one run: sequences of at-limit (and near-limit) depths, which all succeed only
+// if every finished evaluation leaves the depth where it was, optionally ended by an over-limit one.
+func c08dlGenSequences(r *rand.Rand, tier string, emit func(Case)) {
+	shapes := c08dlShapes()
+	for i, total := 0, tierN(tier, 8, 120); i < total; i++ {
+		sh := shapes[r.Intn(len(shapes))]
+		kinds, top, ok := c08dlSolve(r, sh, c08dlLimit, r.Intn(4))
+		if !ok {
+			continue
+		}
+		_, _, outer := c08dlOuter(kinds, "x")
+		per := (sh.need(outer, 16) - sh.need(outer, 10)) / 6
+		// the largest argument that fits
+		for sh.need(outer, top+1) <= c08dlLimit {
+			top++
+		}
+		var ns []int
+		for j, k := 0, 2+r.Intn(3); j < k; j++ {
+			switch r.Intn(6) {
+			case 0:
+				ns = append(ns, r.Intn(5))
+			case 1:
+				ns = append(ns, top-1-r.Intn(3))
+			case 2:
+				ns = append(ns, top-(c08dlLimit/2)/per)
+			default:
+				ns = append(ns, top)
+			}
+		}
+		what := "at-limit evaluations in a row"
+		if i%3 != 0 {
+			ns = append(ns, top+1+r.Intn(3)*r.Intn(2))
+			what += ", then one over the limit"
+		} else {
+			ns = append(ns, top)
+		}
+		place := c08dlPlaces[r.Intn(len(c08dlPlaces))]
+		c08dlCase(sh, place, kinds, ns, what, emit)
+	}
+}
+
+func init() {
+	register(Family{
+		Name: "depth-limit-boundary", Prop: "C08",
+		Rule: "one evaluation of a recursion that needs exactly D live frames, for EVERY D in 4090..4100 (limit 4096; the rule level is depth 0, each user call and each selected match body is one frame), for 17 recursion shapes (direct, tail, mutual over 2 and 3 functions, through a match expression body with and without a match at the base, through a match block body, mutual with a match in one function, in a match subject, in argument position of a second call incl. at the base / mutual / inside a match body, as && / || / while-condition operand, as an array item), evaluated in BEGIN, a rule body, a rule pattern or END, once directly and once under 1-3 outer frames (wrapper functions and match bodies in random order); oracle (implementation only): class ok, the closed-form value and depth 0 iff D <= 4096, else a runtime error with exactly the output before the evaluation and reported at the push site that the replay of the pushes says is number 4097; model comparison on class, out, depth, line, col",
+		Gen:  c08dlGenBoundary,
+	})
+	register(Family{
+		Name: "depth-limit-sequences", Prop: "C08",
+		Rule: "3-6 evaluations in ONE run (records of a rule body / pattern, or prints of BEGIN / END) of one of the 17 recursion shapes under 0-3 outer frames: mostly the deepest argument that fits (exactly 4096 frames, or 4095 for two-frame shapes), mixed with shallow, half-depth and one-to-three-less arguments in random order, ended by another at-limit evaluation or by one that is 1-3 levels over the limit; oracle (implementation only): every fitting evaluation succeeds with the closed-form value (a frame left behind by any earlier one would make a later at-limit one fail), depth 0 at the end, and the over-limit one is a runtime error at the computed push site with all earlier output kept; model comparison on class, out, depth, line, col",
+		Gen:  c08dlGenSequences,
 	})
 }
